@@ -230,11 +230,17 @@ open Dtail.Go Dtail.Gen.MaprQuery in
     `parse` — is translated from internal/mapr on every run with every index and slice expression guarded (where the Go
     runtime would panic, the translated function returns `Outcome.panic`).  For every query text and every behaviour
     of `strconv.ParseFloat`, `strconv.Atoi` and `funcs.NewFunctionStack` it returns a query or an error — no guard
-    fails — provided the loops get more fuel than there are tokens (the Go loops have no fuel: the bound only says
-    that they end). -/
-theorem C11_generated_parser_never_panics (ext : Ext) (q : Bytes) (hf : (Gen.MaprQuery.tokenize ext q).length < ext.fuel) :
+    fails — provided the loops get more fuel than the text is long (the Go loops have no fuel: the bound only says that
+    they end; a text of n bytes has at most n + 1 tokens). -/
+theorem C11_generated_parser_never_panics (ext : Ext) (q : Bytes) (hf : q.length + 1 < ext.fuel) :
     ∃ r, Gen.MaprQuery.NewQuery ext q = Outcome.ok r :=
-  GenQuery.NewQuery_ok ext q hf
+  GenQuery.NewQuery_ok_text ext q hf
+
+open Dtail.Go Dtail.Gen.MaprQuery in
+/-- a query text has at most its length plus one tokens (`tokenize` as translated: split at '"', commas to blanks,
+    `strings.Fields`) — which is why fuel beyond the length of the text is fuel beyond the number of tokens -/
+theorem C11_generated_token_count (ext : Ext) (q : Bytes) : (Gen.MaprQuery.tokenize ext q).length ≤ q.length + 1 :=
+  GenQuery.tokenize_length ext q
 
 open Dtail.Go Dtail.Gen.MaprQuery in
 /-- the parts: none of the translated clause parsers panics, on any token list -/
